@@ -16,3 +16,37 @@ reg("C12",
     "WellFormed predicate of the spec (backward conformance: observations are read back into TLC).",
     "Trusts: functions compare ids/addresses only for equality, so a 3-letter alphabet is representative.",
     "TLA+ spec RingMath: exhaustive TLC case enumeration, real outputs validated by TLC against the spec predicate")
+
+_RING_NOTE = ("Trusts: the controlled scheduler serialises operations at gate granularity (no gate inside a critical section), "
+              "so lock-internal races are not explored; finger routing is over-approximated in ChordKV; in-process node references.")
+_RING_TECH = "TLA+ spec ChordKV: exhaustive TLC + directed replay of counterexamples into real LocalNodes + TLC trace validation (Trace_ChordKV) of seeded controlled schedules"
+reg("C03",
+    "ChordKV (membership, transfer, maintenance, client operations) is model-checked exhaustively on a 4-node instance with one joiner, one leaver "
+    "and client writes (invariants NoLoss, NoGhost, SingleCopy, Reachable at quiescence); counterexamples of the defective design variants are "
+    "replayed into real LocalNodes; seeded controlled schedules (joins, leaves, puts/deletes/appends/removes, maintenance interleaved at gate "
+    "granularity) are recorded step by step and every step and every invariant is validated by TLC against the specification; final reads "
+    "from every node must return the last acknowledged value.", _RING_NOTE, _RING_TECH)
+reg("C04",
+    "Same engine as C03 with an operation-heavy mix: each client operation is one scheduler step, TLC checks that a successful operation takes "
+    "effect exactly at a node the specification allows and that reads return the latest acknowledged value, that operations answered with the "
+    "retryable error leave the recorded state unchanged, and that no other error class reaches a client during graceful churn.",
+    _RING_NOTE + " Concurrent overlap of client operations inside one node is not explored by this check.", _RING_TECH)
+reg("C05",
+    "ChordKV invariants SingleCopy (every recorded state) and Placement (at every maintenance fixpoint with all operations finished) are "
+    "model-checked on the small instances and evaluated by TLC on the recorded states of real rings driven through seeded controlled schedules "
+    "and through the replayed counterexamples of the defective variants.", _RING_NOTE, _RING_TECH)
+reg("C06",
+    "ChordKV invariants OneMembershipOp (every recorded state, via the protocol counters the trace validation carries) and NoStuck (every node "
+    "back to Active/Left/Inactive at quiescence) on exhaustive small instances and on recorded real executions where joins and leaves race on the "
+    "same node and on neighbours; refusals must be retryable (join/leave results are recorded).", _RING_NOTE, _RING_TECH)
+reg("C08",
+    "The nil-predecessor / departed-predecessor / routed-through-departed-node states are reached by TLC in the defective design variants; their "
+    "counterexamples are replayed into real nodes (the join must answer success or a retryable error, no panic), and every join of the seeded "
+    "controlled schedules is judged the same way.", _RING_NOTE, _RING_TECH)
+reg("C09",
+    "ChordRing (ChordKV + finger tables, FindSuccessor with the self-forward as explicit result Diverge) is model-checked: InvTerminates on every "
+    "state reachable by join/leave/stabilize/fixFinger of a 4-node B=3 instance (5-node B=4 thorough); counterexamples of the self-forwarding variant "
+    "are replayed into real nodes at scaled ids and FindSuccessor is called from every live node for every position, in a child process with a "
+    "deadline; seeded schedules issue lookups at every gate of concurrent joins and leaves.",
+    "Trusts: scaled embedding id = pos*2^(48-B)+1 (real finger 48-B+k = model finger k); maintenance parked while a lookup runs.",
+    "TLA+ spec ChordRing: exhaustive TLC (Terminates) + directed replay of counterexamples + seeded controlled schedules in child processes")
